@@ -215,6 +215,16 @@ def source_tie(run, parts=("mz",)):
                                           cwd=VERIF, timeout=900)
                         field_ok = [f for f in re.findall(r"^tie (\S+): OK", out4, re.M) if f in failed]
                         failed = [f for f in failed if f not in field_ok]
+                    # a block is compiled together with the blocks it `needs`: when one of those fails, it fails too.  Only the ROOT
+                    # failures say which function's translation is no longer the model
+                    needs = tie_needs(target)
+                    def closure(f, seen=None):
+                        seen = set() if seen is None else seen
+                        for g in needs.get(f, ()):
+                            if g not in seen:
+                                seen.add(g); closure(g, seen)
+                        return seen
+                    failed = [f for f in failed if not (closure(f) & set(failed))] or failed
                     irr = IRRELEVANT_TIES.get(run.prop, {}).get(k)
                     outside = [f for f in failed if irr and re.match(irr, f)]
                     failed = [f for f in failed if f not in outside]
@@ -247,6 +257,18 @@ def source_tie(run, parts=("mz",)):
         for k, r in mism.items():
             run.oblige("source-level tie (%s)" % k, False, r["detail"])
     return not bad
+
+
+def tie_needs(target):
+    """the `needs:` graph of a tie file: (* BEGIN TIE f (needs: a b) *)"""
+    path = os.path.join(COQ, target[:-1] if target.endswith(".vo") else target)
+    g = {}
+    try:
+        for m in re.finditer(r"\(\* BEGIN TIE (\S+)(?: \(needs: ([^)]*)\))? \*\)", open(path, encoding="utf-8").read()):
+            g[m.group(1)] = [x.strip(" ,") for x in (m.group(2) or "").replace(",", " ").split() if x.strip(" ,")]
+    except OSError:
+        pass
+    return g
 
 
 def source_corollaries(run, module, theorems, parts, allowed_axioms=()):
